@@ -215,11 +215,15 @@ def reuse_case(ctx, rng, t=None):
 # results are combined, the exception class, and the attributes left behind.  The real calls are recorded by replacing the module objects
 # db[model]['matrices'] / ['matrices_num'] by recorders which either delegate to the compiled kernel ('real') or hand back a small random
 # integer COO matrix ('fake': the panel definition need not be one the kernels accept, and the combination is compared exactly).
-GLUE_METHODS = ('k0', 'kG0', 'kM', 'kA', 'cA', 'kT')
+GLUE_METHODS = ('k0', 'kG0', 'kM', 'kA', 'cA', 'kT', 'fint')
 GLUE_TAG = {'plate_clt_donnell_bardell': 'plate', 'plate_clt_donnell_bardell_w': 'platew',
             'cpanel_clt_donnell_bardell': 'cpanel', 'kpanel_clt_donnell_bardell': 'kpanel'}
 GLUE_DOFS = {'plate': 3, 'platew': 1, 'cpanel': 3, 'kpanel': 3}
-GLUE_ERRORS = [('ValueError', 'valid models are', 'rebuildModel'), ('ValueError', 'stack must be defined', 'rebuildStack'),
+GLUE_ERRORS = [('ValueError', 'is not a valid model option', 'fintModel'), ('ValueError', 'matrices_num not implemented', 'fintNoNum'),
+               ('ValueError', 'calc_fint not implemented', 'fintNoKernel'), ('TypeError', "required positional argument: 'c'", 'cMissing'),
+               ('ValueError', 'Buffer has wrong number of dimensions', 'cBufferNdim'), ('ValueError', 'Invalid shape for Finput', 'finputShape'),
+               ('ValueError', 'dimension mismatch', 'dotMismatch'),
+               ('ValueError', 'valid models are', 'rebuildModel'), ('ValueError', 'stack must be defined', 'rebuildStack'),
                ('ValueError', 'laminaprop must be defined', 'rebuildLaminaprop'), ('ValueError', 'plyt must be defined', 'rebuildPlyt'),
                ('TypeError', 'must be a NumPy ndarray', 'cNotArray'), ('ValueError', 'must be a 1-D', 'cNdim'),
                ('ValueError', 'same size as the global', 'cSize'), ('NotImplementedError', 'Partial domain', 'stripK0State'),
@@ -254,7 +258,7 @@ def gen_triple(rng, kind):
 def gen_glue_case(rng, t):
     base = pc.gen_panel_case(rng, max_mn=2, y12=False)
     base['flags'] = {k: float(v) for k, v in base['flags'].items()}
-    meth = ('k0', 'kG0', 'kM', 'kA', 'cA', 'kT', 'k0', 'kA', 'kG0', 'kM')[t % 10]
+    meth = ('k0', 'kG0', 'kM', 'kA', 'cA', 'kT', 'k0', 'kA', 'kG0', 'kM', 'fint', 'kT', 'fint')[t % 13]
     real = rng.random() < 0.35
     tag = GLUE_TAG[base['model']]
     own = GLUE_DOFS[tag] * base['m'] * base['n']
@@ -313,8 +317,9 @@ def gen_glue_case(rng, t):
     g['F'] = False
     g['nx'] = g['ny'] = None
     g['nl'] = False
-    if meth in ('k0', 'kG0', 'kT'):
-        g['c'] = rng.choice(['none'] * 14 + ['ok'] * 6 + ['wrongsize', '2d', 'list'])
+    if meth in ('k0', 'kG0', 'kT', 'fint'):
+        g['c'] = rng.choice(['none'] * 14 + ['ok'] * 6 + ['wrongsize', '2d', 'list']) if meth != 'fint' else \
+            rng.choice(['ok'] * 12 + ['list'] * 3 + ['wrongsize', 'wrongsize', '2d', 'none'])
         g['F'] = rng.random() < 0.25
         g['nx'], g['ny'] = rng.choice([(None, None), (2, 3), (3, None), (None, 2)])
         g['nl'] = rng.random() < 0.5
@@ -323,6 +328,11 @@ def gen_glue_case(rng, t):
             g['size'], g['row0'], g['col0'] = rng.choice([None, own]), rng.choice([None, 0]), rng.choice([None, 0])
             if g['size_attr'] == 'other':
                 g['size_attr'] = 'own'
+        if meth == 'fint':
+            if real and g['c'] == 'wrongsize':
+                g['c'] = 'ok'                       # the compiled force kernel does not check the length of c
+            if rng.random() < 0.6:
+                g['lam'] = True                     # calc_fint reads self.F as it is: mostly after a calc_k0
     g['aeromu_arg'] = rng.uniform(0.1, 3.)
     g['prior'] = rng.random() < 0.3
     return g
@@ -342,9 +352,12 @@ class _GlueRec(object):
             entry = self._render(self._tag, nm, a, k)
             if self._real:
                 out = f(*a, **k)
+            elif nm == 'calc_fint':
+                out = _fake_fint(a, self._frng)
             else:
                 out = _fake_out(entry['size'], self._frng)
-            entry['out'] = out.copy()
+            entry['raw'] = out
+            entry['out'] = np.array(out, dtype=float) if nm == 'calc_fint' else out.copy()
             self._log.append(entry)
             return out
         return g
@@ -361,6 +374,18 @@ def _fake_out(size, frng):
         pos += [(i, j), (j, i)]                                   # strictly upper and strictly lower
     vals = [float(frng.choice([-1, 1]) * frng.randint(1, 9)) for _ in pos]
     return coo_matrix((vals, ([r for r, _ in pos], [c for _, c in pos])), shape=(size, size), dtype=float)
+
+
+def _fake_fint(a, frng):
+    """stand-in of the compiled calc_fint(double [:] cs, object Finput, panel, int size, int col0, int nx, int ny): the two checks made at its
+    entry (typed-memoryview conversion of cs, shape of Finput), then a random integer vector of length size"""
+    cs, Finput, _, size, col0, nx, ny = a
+    if np.ndim(cs) != 1:
+        raise ValueError('Buffer has wrong number of dimensions (expected 1, got %d)' % np.ndim(cs))
+    Fi = np.asarray(Finput, dtype=float)
+    if Fi.shape != (nx, ny, 6, 6) and Fi.shape != (6, 6):
+        raise ValueError('Invalid shape for Finput!')
+    return np.array([float(frng.randint(-9, 9)) for _ in range(max(int(size), 0))])
 
 
 def _qs(x):
@@ -425,11 +450,13 @@ def glue_run(g, prior_only=False, tracer=None):
     if g['F']:
         Fgiven = lam_mod.read_stack(list(base['stack']), plyt=base['plyt'], laminaprop=tuple(base['laminaprop']), offset=0.).ABD.copy()
     kw = dict(silent=True, finalize=g['finalize'])
+    if g['method'] == 'fint':
+        del kw['finalize']                                   # calc_fint(c, size, col0, silent, nx, ny, Fnxny, inc): no row0, no finalize
     if g['method'] != 'cA':
         for k_ in ('size', 'row0', 'col0'):
-            if g[k_] is not None:
+            if g[k_] is not None and not (g['method'] == 'fint' and k_ == 'row0'):
                 kw[k_] = g[k_]
-    if g['method'] in ('k0', 'kG0', 'kT'):
+    if g['method'] in ('k0', 'kG0', 'kT', 'fint'):
         if cvec is not None:
             kw['c'] = cvec
         if Fgiven is not None:
@@ -437,7 +464,7 @@ def glue_run(g, prior_only=False, tracer=None):
         for k_ in ('nx', 'ny'):
             if g[k_] is not None:
                 kw[k_] = g[k_]
-        if g['method'] != 'kT' and g['nl']:
+        if g['method'] not in ('kT', 'fint') and g['nl']:
             kw['NLgeom'] = True
     meth = getattr(p, 'calc_' + g['method'])
     args = (g['aeromu_arg'],) if g['method'] == 'cA' else ()
@@ -458,6 +485,8 @@ def glue_run(g, prior_only=False, tracer=None):
                 if x.ndim == 1:
                     if cvec is not None and isinstance(cvec, np.ndarray) and x.shape == cvec.shape and np.array_equal(x, cvec):
                         e['strs'].append('c')
+                    elif isinstance(cvec, list) and nm == 'calc_fint' and np.array_equal(x, np.asarray(cvec, dtype=float)):
+                        e['strs'].append('c')                # calc_fint converts a list itself (no check_c)
                     elif not x.any():
                         e['strs'].append('zeros%d' % x.shape[0])
                     else:
@@ -546,6 +575,9 @@ def glue_run(g, prior_only=False, tracer=None):
     cdesc = '-'
     if g['c'] != 'none':
         cdesc = '%d:%d:%d' % (isinstance(cvec, np.ndarray), getattr(cvec, 'ndim', 0), cvec.shape[0] if isinstance(cvec, np.ndarray) else 0)
+        if g['method'] == 'fint':
+            # calc_fint hands np.ascontiguousarray(c) to the kernel and to the sparse product: what matters is the array it becomes
+            cdesc = '%d:%d:%d' % (isinstance(cvec, np.ndarray), np.ndim(cvec), np.shape(cvec)[0])
     aline = ('size=%s row0=%s col0=%s fin=%d c=%s nx=%s ny=%s F=%d nl=%d aeromu=%s'
              % tuple(['-' if g[k_] is None else str(g[k_]) for k_ in ('size', 'row0', 'col0')] + [g['finalize'], cdesc]
                      + ['-' if g[k_] is None else str(g[k_]) for k_ in ('nx', 'ny')] + [g['F'], g['nl'], _qs(g['aeromu_arg'])]))
@@ -562,11 +594,26 @@ def glue_run(g, prior_only=False, tracer=None):
         restore()
     post = dict(model='unset' if p.model is None else GLUE_TAG.get(p.model, 'invalid'), r=p.__dict__.get('r'), al=p.__dict__.get('alpharad', missing),
                 size=p.__dict__.get('size'), mach=p.Mach, lam=p.lam is not None, lps=bool(p.laminaprops), plyts=bool(p.plyts))
-    return dict(p=p, pline=pline, aline=aline, log=log, outcome=outcome, post=post, offsets=offsets, missing=missing)
+    return dict(p=p, pline=pline, aline=aline, log=log, outcome=outcome, post=post, offsets=offsets, missing=missing, cvec=cvec)
 
 
 def glue_line(g, run):
     from tools.common import q
+    if g['method'] == 'fint':
+        res = []
+        for e in run['log']:
+            if e['name'] == 'calc_fint':
+                res.append(' '.join(q(float(v_)) for v_ in e['out']))
+            else:
+                o = e['out'].tocoo() if not g['real'] else e['out'].tocsr().tocoo()
+                res.append(' '.join('%d %d %s' % (r_, c_, q(v_)) for r_, c_, v_ in zip(o.row, o.col, o.data)))
+        nv = len(run['log'][0]['out']) if run['log'] else 0
+        probes = list(range(nv))[:240]
+        run['probes'] = probes
+        cv_ = run['cvec']
+        cs = [] if cv_ is None or np.ndim(cv_) != 1 else [float(x) for x in np.asarray(cv_, dtype=float)]
+        return 'C02 glue fint | %s | %s | %s | %s | %s' % (run['pline'], run['aline'], ' ; '.join(res), ' '.join(str(i) for i in probes),
+                                                          ' '.join(q(x) for x in cs))
     res, support = [], set()
     for e in run['log']:
         o = e['out'].tocoo() if not g['real'] else e['out'].tocsr().tocoo()
@@ -655,6 +702,27 @@ def glue_compare(g, run, rep):
         if (mal == '-') != (ial is missing) or (mal != '-' and float(np.deg2rad(float(unq(mal)))) != float(ial)):
             return ('kernel call %d (%s): panel.alpharad seen by the kernel: model deg2rad(%s), implementation %r'
                     % (k_, name, mal, None if ial is missing else ial))
+    if g['method'] == 'fint':
+        # the returned VECTOR: the kernel's own object when no pre-stress term is added, else an ndarray; values at every index
+        ret = run['outcome'][1]
+        pre = parts[2].split('=')[1] == '1'
+        if not pre and ret is not icalls[0]['raw']:
+            return 'model: calc_fint returns the object the force kernel returned; implementation returns %s' % type(ret).__name__
+        if pre and not isinstance(ret, np.ndarray):
+            return 'model: calc_fint returns np.asarray(kernel result) + kG0_cte.dot(c), an ndarray; implementation returns %s' % type(ret).__name__
+        bad = post_bad(parts[3])
+        if bad:
+            return bad
+        vec = np.asarray(ret, dtype=float)
+        if vec.ndim != 1 or vec.shape[0] != len(icalls[0]['out']):
+            return 'model: vector of length %d; implementation: shape %r' % (len(icalls[0]['out']), vec.shape)
+        vals = parts[4].split() if len(parts) > 4 else []
+        scale = max(float(np.abs(vec).max()) if vec.size else 0., 1e-300)
+        for i_, v in zip(run['probes'], vals):
+            if not close(float(vec[i_]), unq(v), scale):
+                return ('internal force vector, entry %d: model (kernel result%s) %.12g, implementation %.12g'
+                        % (i_, ' + finalize(kG0_cte).c' if pre else '', float(unq(v)), vec[i_]))
+        return None
     info = dict(w.split('=') for w in parts[2].split())
     p = run['p']
     ret = run['outcome'][1]
@@ -808,6 +876,23 @@ def glue_corpus():
     directed('kA', 'Plate', aero=dict(beta=None, gamma=None, aeromu=None, Mach=0.5, rho_air=1.1, V=700., speed_sound=330.))
     directed('kA', 'CPanel', aero=dict(beta=None, gamma=None, aeromu=None, Mach=1.8, rho_air=1.1, V=700., speed_sound=330.))
     directed('kA', 'Plate', flow='z')
+    # calc_fint: every branch, and the shapes of the slips it has had (pre-stress term dropped, nx / Fnxny not forwarded)
+    directed('fint', 'Plate', c='ok', cte=(120., None, -30.))
+    directed('fint', 'CPanel', c='ok', F=True, nx=3, ny=2, cte=(0., 0., None))
+    directed('fint', 'Plate', c='ok', nx=4, ny=None, cte=(250., -250., None), size=40, col0=9)
+    directed('fint', 'CPanel', c='list', y1=0., y2=lambda b: 0.5 * b, cte=(None, 7., None), alstale=7.5)
+    directed('fint', 'Plate', c='ok', y1=lambda b: 0.25 * b, y2=None, size_attr='absent')
+    directed('fint', 'PlateW', c='ok')
+    directed('fint', 'KPanel', c='ok')
+    directed('fint', 'Plate', c='ok', model_attr='unset')
+    directed('fint', 'Plate', c='ok', model_attr='invalid')
+    directed('fint', 'Plate', c='none')
+    directed('fint', 'Plate', c='2d', cte=(1., None, None))
+    directed('fint', 'Plate', c='ok', lam=False)
+    directed('fint', 'Plate', c='ok', lam=False, F=True)
+    directed('fint', 'Plate', c='wrongsize', cte=(None, None, 3.))
+    directed('fint', 'CPanel', c='wrongsize')
+    directed('kT', 'Plate', c='ok', nx=4, ny=3, cte=(120., None, -30.))
     return out
 
 
@@ -827,7 +912,7 @@ def glue_correspondence(ctx, rng, cases=None):
     from tools.props.C05 import LineTracer
     PanelCls = _panel.Panel
     modelled = [PanelCls._rebuild, PanelCls.get_size, _panel.check_c, PanelCls._get_lam_F, PanelCls.calc_k0, PanelCls.calc_kG0, PanelCls.calc_kT,
-                PanelCls.calc_kM, PanelCls.calc_kA, PanelCls.calc_cA]
+                PanelCls.calc_kM, PanelCls.calc_kA, PanelCls.calc_cA, PanelCls.calc_fint]
     tracer = LineTracer(modelled)
     for g in cases:
         run = glue_run(g, tracer=tracer)
@@ -881,6 +966,9 @@ def glue_correspondence(ctx, rng, cases=None):
         cov[f.__name__] = dict(lines=len(al), executed=len(al) - len(miss), missed=miss)
         if miss and full_run and f.__name__ == '_get_lam_F':
             ctx.notes.append('glue correspondence: lines %s of Panel._get_lam_F (first-order shear models: none in modelDB) are never executed' % miss)
+        elif miss and full_run and f.__name__ == 'calc_fint' and len(miss) <= 2:
+            ctx.notes.append('glue correspondence: lines %s of Panel.calc_fint (a numerical module without calc_fint: none in modelDB) are never '
+                             'executed' % miss)
         elif miss and full_run and not nbad:
             # coverage gate (DESIGN 2.2): a line of a modelled function the corpus never reaches is an unchecked tie
             ctx.violation('glue correspondence: lines %s of %s in compmech/panel/_panel.py are never executed by the corpus, so the hand model '
@@ -895,8 +983,10 @@ def glue_correspondence(ctx, rng, cases=None):
 def correspondence(ctx):
     ir = pc.translated(ctx)
     rng = ctx.rng
-    if glue_correspondence(ctx, rng):
+    if glue_correspondence(ctx, rng) and any(v['found_input'] for v in ctx.violations):
         return
+    # (a glue disagreement that is no failing input on its own case is a broken tie: the streams below go on looking for an input on which
+    #  the property fails - e.g. the laminate handed to the kernels as a copy shows only with force_orthotropic_laminate in the oracle stream)
     n = ctx.scale(40, 400)
     dist = dict(models={}, y1y2=0, preload=0, placed=0, generic_flags=0)
     for t in range(n):
